@@ -827,8 +827,12 @@ def props_out(member):
 
 
 def make_case(w, call, out, E, props=None):
-    c = {'ifaces': w['ifaces'], 'classes': w['classes'], 'objects': w['objects'], 'call': call, 'out': out,
-         'raw': build_call(E, call['path'], call['member'], call['iface'], call['sig'], call['body'], call['sender'], call['expect'])}
+    raw = bytearray(build_call(E, call['path'], call['member'], call['iface'], call['sig'], call['body'], call['sender'],
+                               call['expect']))
+    # other header flag bits (NO_AUTO_START 0x2, ALLOW_INTERACTIVE_AUTHORIZATION 0x4) in combination with the
+    # no-reply bit: whether a reply is expected depends on bit 0x1 alone
+    raw[2] |= (0, 0, 2, 4, 6)[(len(raw) + raw[8] + 3 * len(call['member'])) % 5]
+    c = {'ifaces': w['ifaces'], 'classes': w['classes'], 'objects': w['objects'], 'call': call, 'out': out, 'raw': bytes(raw)}
     if props is not None:
         c['props'] = props_fid(props, E)
         c['out'] = props_out(props)
